@@ -459,7 +459,33 @@ def r8_replace_not_rewrite(P, rep, ctx):
         raise AnalysisError(f"C06.R8: only {n} functions scanned")
 
 
+def r4b_providers(P, rep, ctx, rule="C06.R4"):
+    """TOCPackages keeps `_providers` exact: when a package record is dropped, the package leaves the provider set of each
+    of its schemas and a schema without provider leaves the table; membership is answered from the stored records."""
+    fi = P.func(f"{I}.TOCPackages._unregister")
+    f = F(ctx, fi)
+    g = f.g
+    pk = fi.params[1]
+    loops = [n for n in g.nodes if n.kind == "for" and isinstance(n.stmt.target, ast.Name)]
+    ok = False
+    for n in loops:
+        sr = n.stmt.target.id
+        rm = f.calls(f"self._providers[{sr}].remove({pk})", f"self._providers[{sr}].discard({pk})")
+        empty = f.tests(f"not self._providers[{sr}]", f"len(self._providers[{sr}]) == 0")
+        dl = f.deletes(f"self._providers[{sr}]") + [i for i, c_, b_ in f.call_sites(f"self._providers.pop({sr}, ___)")]
+        if rm and empty and dl:
+            ok = (f.hit_before(n.idx, nodes=rm, src_edge=(n.idx, "iter")) and f.all_hit_before(dl, edges=empty, src=n.idx) and all(f.hit_before(n.idx, nodes=dl, src_edge=e) for e in empty)
+                  and all(f.hit_before(t, nodes=rm, src=n.idx) for t in f.test_nodes(empty)) and f.hit_before(g.exit, nodes=[n.idx]))
+    rep.check(ok, rule, fi.qual, "a dropped package leaves every provider set; provider-less schemas leave the table", fi.loc(), construct="providers on package removal",
+              message="TOCPackages._unregister does not remove the package from the provider set of each of its schemas / does not drop exactly the schemas left without provider: the provider reported for a stored schema is a package that is no longer recorded (or a KeyError on the next registration)")
+    cf = F(ctx, P.func(f"{I}.TOCPackages.__contains__"))
+    cp = cf.fi.params[1]
+    rets = [cf.x(v) for _, v in cf.returns() if v is not None]
+    rep.check(rets == [f"{cp} in self._pkginfos"], rule, cf.fi.qual, "package membership is answered from the stored package records", cf.fi.loc(), construct="TOCPackages.__contains__", message=f"TOCPackages.__contains__ returns {rets}")
+
+
 def r4_cleanup(P, rep, ctx):
+    r4b_providers(P, rep, ctx)
     U = "self._toc_path[uuid]"
     SG = f"self._raw[{U}].parent"
     pairs = [
